@@ -167,7 +167,14 @@ def search_real(chk, r, n, max_pto):
             xsk = r.choice(["XSHERANC", "XSHERACC", "F1", "FW"]) if process != "EM" else "XSHERANC"
             if (xsk in ("XSHERACC",) and process != "CC") or (xsk == "XSHERANC" and process == "CC"):
                 xsk = "F1"
-            obs[f"{xsk}_total"] = [dict(x=0.1, Q2=20.0, y=0.5), dict(x=0.3, Q2=50.0, y=float(r.uniform(0.1, 1)))]
+            # observables may be requested by their kind alone (flavour defaults to total); the output is
+            # keyed by the name as given, and the short and the long spelling may both be present
+            obs[xsk if (i == 0 or r.random() < 0.4) else f"{xsk}_total"] = [dict(x=0.1, Q2=20.0, y=0.5), dict(x=0.3, Q2=50.0, y=float(r.uniform(0.1, 1)))]
+            if i == 0 or r.random() < 0.4:
+                k_ = r.choice(kinds)
+                obs[k_] = [dict(x=float(r.uniform(0.02, 0.9)), Q2=30.0)]
+                if i == 0 or r.random() < 0.5:
+                    obs[f"{k_}_total"] = [dict(x=0.2, Q2=30.0), dict(x=0.5, Q2=7.0)]
             sv = r.random() < 0.5
             # target-mass corrected results carry *signed* propagated errors
             tmc = r.choice([0, 0, 1]) if pto <= 1 and not any(k.split("_")[0] in ("FW",) for k in obs) else 0
@@ -179,7 +186,7 @@ def search_real(chk, r, n, max_pto):
                 k = f"{type(e).__name__}:{str(e)[:80]}"
                 chk.extra["search_exceptions"][k] = chk.extra["search_exceptions"].get(k, 0) + 1
                 continue
-            fmt = r.choice(["tar", "yaml", "mixed"])
+            fmt = r.choice(["tar", "yaml", "mixed"]) if i > 1 else ["yaml", "tar"][i]
             cycles = r.choice([1, 2, 3]) if fmt != "mixed" else 3
             cur = out
             problem = None
